@@ -181,6 +181,19 @@ var templates = []func(u string) string{
 	func(u string) string {
 		return "t" + u + " = make([]int64, 2)\nt" + u + "[0] = 2 * 3\nq" + u + " = &t" + u + "[0]\n*q" + u + " = 9\nrec(t" + u + "[0])\nrec(2 * 3)"
 	},
+	func(u string) string {
+		// values with reference-typed fields made from one type expression: each make is a fresh value
+		return "st" + u + " = make(struct { N string, T map[string]int64, C chan int64 })\nrec(len(st" + u + ".T))\nst" + u + ".T[hostUp(\"k\")] = base\nst" + u + ".N = hostUp(\"n\")\nrec(len(st" + u + ".T))\nrec(st" + u + ".N)\nrec(len(st" + u + ".C))\n" +
+			"ps" + u + " = make(*struct { A int64, M map[string]int64 })\nrec(ps" + u + ".A)\nps" + u + ".A = base\nps" + u + ".M[hostUp(\"x\")] = base\nrec(len(ps" + u + ".M))\nsu" + u + " = make(struct { N string, T map[string]int64, C chan int64 })\nrec(len(su" + u + ".T))\nrec(su" + u + ".N)"
+	},
+	func(u string) string {
+		// type names are bindings like any other: float32 is bound differently by each configuration (or not at all),
+		// uint32 / uint are bound by the script itself, at top level and inside a function
+		return "rec(make([]float32, 1))\nrec(make(float32))\nmake(type uint32, w0)\nrec(make([]uint32, 1))\nfunc() { make(type uint, w0); rec(make([]uint, 1)) }()\nrec(make([]uint, 1))\nrec(make(map[string]float32))"
+	},
+	func(u string) string {
+		return "switch base {\ncase 10:\nrec(\"a\")\ncase 20:\nrec(\"b\")\ncase 30:\nrec(\"c\")\n}\nswitch hostUp(\"\") {\ncase \"up0:\":\nrec(0)\ncase \"up1:\":\nrec(1)\ndefault:\nrec(2)\n}\nswitch base / 10 {\ncase 1, 2:\nrec(\"lo\")\ncase 3, 4:\nrec(\"hi\")\n}"
+	},
 }
 
 func Render(w *Work) string {
@@ -231,7 +244,7 @@ func (Prop) Gen(seed int64, tier string) *harness.Case {
 var rvType = reflect.TypeOf(reflect.Value{})
 
 func dumpTree(n interface{}) string {
-	var b strings.Builder
+	b := &strings.Builder{}
 	seen := map[uintptr]bool{}
 	var walk func(v reflect.Value, depth int)
 	walk = func(v reflect.Value, depth int) {
@@ -291,7 +304,47 @@ func dumpTree(n interface{}) string {
 				b.WriteString(" ")
 			}
 			b.WriteString("}")
-		case reflect.Slice:
+		case reflect.Map:
+			// data a run may have parked in a node (lookup tables, memo maps): nil and empty differ
+			if v.IsNil() {
+				b.WriteString("map(nil)")
+				return
+			}
+			type kv struct{ k, v string }
+			var ents []kv
+			outer := b
+			it := v.MapRange()
+			for it.Next() {
+				b = &strings.Builder{}
+				walk(it.Key(), depth+1)
+				ents = append(ents, kv{k: b.String()})
+			}
+			sort.Slice(ents, func(i, j int) bool { return ents[i].k < ents[j].k })
+			// values in key order, so that <again> marks do not depend on map iteration order
+			for i := range ents {
+				it = v.MapRange()
+				for it.Next() {
+					b = &strings.Builder{}
+					walk(it.Key(), depth+1)
+					if b.String() == ents[i].k {
+						b = &strings.Builder{}
+						walk(it.Value(), depth+1)
+						ents[i].v = b.String()
+						break
+					}
+				}
+			}
+			b = outer
+			b.WriteString("map{")
+			for _, e := range ents {
+				b.WriteString(e.k + "=>" + e.v + ",")
+			}
+			b.WriteString("}")
+		case reflect.Slice, reflect.Array:
+			if v.Kind() == reflect.Slice && v.IsNil() {
+				b.WriteString("[nil]")
+				return
+			}
 			b.WriteString("[")
 			for i := 0; i < v.Len(); i++ {
 				walk(v.Index(i), depth+1)
@@ -302,8 +355,18 @@ func dumpTree(n interface{}) string {
 			b.WriteString(strconv.Quote(v.String()))
 		case reflect.Int, reflect.Int8, reflect.Int16, reflect.Int32, reflect.Int64:
 			b.WriteString(strconv.FormatInt(v.Int(), 10))
+		case reflect.Uint, reflect.Uint8, reflect.Uint16, reflect.Uint32, reflect.Uint64, reflect.Uintptr:
+			b.WriteString(strconv.FormatUint(v.Uint(), 10))
+		case reflect.Float32, reflect.Float64:
+			b.WriteString(strconv.FormatFloat(v.Float(), 'g', -1, 64))
 		case reflect.Bool:
 			b.WriteString(strconv.FormatBool(v.Bool()))
+		case reflect.Func, reflect.Chan, reflect.UnsafePointer:
+			if v.IsNil() {
+				b.WriteString("<" + v.Kind().String() + " nil>")
+			} else {
+				b.WriteString("<" + v.Kind().String() + ">")
+			}
 		default:
 			b.WriteString("<" + v.Kind().String() + ">")
 		}
@@ -342,6 +405,18 @@ func render(v interface{}) string {
 		return "ptr"
 	case reflect.Chan, reflect.UnsafePointer:
 		return "chan" // %#v would print an address
+	case reflect.Struct:
+		// field by field: a channel or pointer field would print an address
+		parts := []string{}
+		for i := 0; i < rv.NumField(); i++ {
+			f := rv.Field(i)
+			if !f.CanInterface() {
+				parts = append(parts, rv.Type().Field(i).Name+":?")
+				continue
+			}
+			parts = append(parts, rv.Type().Field(i).Name+":"+render(f.Interface()))
+		}
+		return rv.Type().String() + "{" + strings.Join(parts, " ") + "}"
 	}
 	return fmt.Sprintf("%T:%#v", v, v)
 }
@@ -360,6 +435,18 @@ func mkEnv(i int, out *runOut, mu *sync.Mutex) *env.Env {
 	})
 	e.Define("hostA", func(x int64) int64 { simrt.Yield("host"); return x*100 + int64(i) })
 	e.Define("hostUp", func(s string) string { return "up" + strconv.Itoa(i) + ":" + s })
+	// type names are per-environment bindings too: the same name, a different type in each configuration
+	switch i % 3 {
+	case 0:
+		e.DefineType("float32", int64(0))
+	case 2:
+		e.DefineType("float32", "")
+	}
+	if i%2 == 0 {
+		e.Define("w0", float64(1.5))
+	} else {
+		e.Define("w0", "s")
+	}
 	// a process-unique identity per environment: an absolute isolation probe
 	// (comparing with a solo run cannot see a leak that is the same in every run)
 	id := 100000 + envCounter.Add(1)
@@ -495,6 +582,7 @@ const globalsSrc = "r = []\nr += 4095 + 0\nr += 4095 + 1\nr += -1 + 0\nr += -2 +
 	"up = import(\"strings\").ToUpper\nlo = import(\"strings\").ToLower\ns = import(\"strings\")\ns.ToUpper = func(a) { return \"hacked\" }\nt = import(\"strings\")\n" +
 	"q = []\nq += t.ToUpper(\"y\") == up(\"y\")\nq += s.ToUpper(\"y\") == \"hacked\"\n" +
 	"import(\"strings\").ToLower = func(a) { return \"hacked\" }\nq += import(\"strings\").ToLower(\"Z\") == lo(\"Z\")\n" +
+	"sm = make(struct { N string, T map[string]int64 })\nr += len(sm.T)\nsm.T[\"k\"] = 1\nsm.N = \"w\"\nsn = make(struct { N string, T map[string]int64 })\nr += len(sn.T)\nr += sn.N\n" +
 	"func noresult() { }\nq += typeOf(nil) == typeOf([nil][0])\nq += typeOf(noresult()) == typeOf(nil)\nq += typeOf(nil) != typeOf(1)\n[r, q]\n"
 
 const relationalWant = "[true true true true true true]"
@@ -550,6 +638,37 @@ func ProcessGlobals() string {
 	globalsOnce.Do(func() { globalsRef = got })
 	if got != globalsRef {
 		return "got " + got + ", the same script gave " + globalsRef + " when this process started"
+	}
+	return typeBindings()
+}
+
+// typeBindings: a type name bound by one environment (by the host or by the script) is that environment's
+// business only. Judged on the host side, against the types the host itself handed in.
+func typeBindings() string {
+	run := func(e *env.Env, src string) reflect.Type {
+		v, err := vm.Execute(e, &vm.Options{}, src)
+		if err != nil {
+			return reflect.TypeOf(err)
+		}
+		return reflect.TypeOf(v)
+	}
+	plain1 := run(env.NewEnv(), "make([]float32, 1)")
+	sh := env.NewEnv()
+	sh.DefineType("float32", int64(0))
+	if t := run(sh, "make([]float32, 1)"); t != reflect.TypeOf([]int64{}) {
+		return fmt.Sprintf("an environment whose host bound the type name float32 to int64 got %v from make([]float32, 1)", t)
+	}
+	if t := run(env.NewEnv(), "make([]float32, 1)"); t != plain1 || t == reflect.TypeOf([]int64{}) {
+		return fmt.Sprintf("a fresh environment got %v from make([]float32, 1), %v before another environment bound that name", t, plain1)
+	}
+	own := env.NewEnv()
+	own.Define("w0", float64(1.5))
+	plain2 := run(env.NewEnv(), "make([]uint32, 1)")
+	if t := run(own, "make(type uint32, w0)\nmake([]uint32, 1)"); t != reflect.TypeOf([]float64{}) {
+		return fmt.Sprintf("a script that bound the type name uint32 to the type of a host float64 got %v from make([]uint32, 1)", t)
+	}
+	if t := run(env.NewEnv(), "make([]uint32, 1)"); t != plain2 || t == reflect.TypeOf([]float64{}) {
+		return fmt.Sprintf("a fresh environment got %v from make([]uint32, 1), %v before another script bound that name", t, plain2)
 	}
 	return ""
 }
